@@ -74,7 +74,7 @@ def gen(tp, feat, tier='quick'):
                 quant = [q, p]
         seed = None
         if feat.get('seeds') and (r == 0 or tp.draw(2)):
-            seed = tp.draw(1000)
+            seed = tp.choice([0, tp.draw(1000), tp.draw(1000)])
         routines.append({'clock': clock, 'quant': quant, 'seed': seed,
                          'body': []})
     # parent relation: routine r (>0) is spawned by a lower-numbered routine
@@ -448,6 +448,9 @@ class Interp:
                     info['exc'] = type(e).__name__
                 info['post'] = t.state.name
             self.event(op, rid, st[1], info)
+        elif op == 'stopclock':
+            self.event('stopclock', rid, st[1])
+            self.clocks[f't{st[1]}'].stop()
         elif op == 'csignal':
             self.event('csignal', rid, st[1])
             self.cond(st[1]).signal()
